@@ -18,6 +18,7 @@ template <int S> struct Runner {
   static const int M = 2 * S;
   const double THR = thr_of(S);
   Ctx &c; const std::string &unit;
+  Sp reused; bool toggle = false;   // a long-lived object updated with every problem of this unit (route 5)
   Runner(Ctx &c_, const std::string &u) : c(c_), unit(u) {}
 
   void fail(const std::string &what, const Prob &p, const std::string &detail) {
@@ -46,6 +47,17 @@ template <int S> struct Runner {
         fail("route-coeffs", p, std::string(rname[r]) + " differs from ctor(durations)");
       if (routes[0]->getTrajectory().getBreakpoints() != routes[r]->getTrajectory().getBreakpoints())
         fail("route-breakpoints", p, std::string(rname[r]) + " differs from ctor(durations)");
+    }
+    // route 5: update() on a long-lived object that holds the previous problem and whose trajectory has been evaluated
+    {
+      if (reused.isInitialized()) for (int k = 0; k < M; ++k) (void)reused.getTrajectory().evaluate(reused.getStartTime(), k);
+      if (toggle) reused.update(q.T, q.P, q.t0, q.bc); else reused.update(tp, q.P, q.bc);
+      toggle = !toggle;
+      ++c.st.comparisons;
+      bool ok = mat_bits_equal(reused.getTrajectory().getCoefficients(), A.getTrajectory().getCoefficients()) && reused.getTrajectory().getBreakpoints() == A.getTrajectory().getBreakpoints();
+      const std::vector<double> &cm = A.getCumulativeTimes();
+      for (int i = 0; ok && i <= N; ++i) for (int k = 0; k < S; ++k) { auto a = A.getTrajectory().evaluate(cm[i], k), b = reused.getTrajectory().evaluate(cm[i], k); ok = ok && bits_equal(a.data(), b.data(), D); }
+      if (!ok) fail("route-reused-object", p, "update() on an object that held another problem (and was evaluated) differs from a fresh construction");
     }
     // bookkeeping on every route
     double tmax = std::max(std::fabs(tp.front()), std::fabs(tp.back()));
